@@ -3,6 +3,5 @@
 P="$1"; C="$2"; T="${3:-quick}"
 git -C /repo apply "$P" || { echo "PATCH DOES NOT APPLY"; exit 3; }
 cd /verif && ./check "$C" --tier "$T" 2>&1 | tail -3 | cut -c1-250
-rc=$?
 git -C /repo checkout -- . 
 git -C /repo status --short | head -3
